@@ -394,12 +394,23 @@ func (opts *Options) flagSet() {
 func (opts *Options) loadCfg() {
 	var file = path.Join(opts.VFlowConfigPath, "vflow.conf")
 
-	for i, flag := range os.Args {
-		if flag == "-config" {
-			file = os.Args[i+1]
-			opts.VFlowConfigPath, _ = path.Split(file)
-			break
+	// the flag package accepts -config f, --config f, -config=f and --config=f
+	for i, arg := range os.Args {
+		name := strings.TrimPrefix(strings.TrimPrefix(arg, "-"), "-")
+		if !strings.HasPrefix(arg, "-") || strings.HasPrefix(arg, "---") {
+			continue
 		}
+
+		if name == "config" && i+1 < len(os.Args) {
+			file = os.Args[i+1]
+		} else if strings.HasPrefix(name, "config=") {
+			file = strings.TrimPrefix(name, "config=")
+		} else {
+			continue
+		}
+
+		opts.VFlowConfigPath, _ = path.Split(file)
+		break
 	}
 
 	b, err := ioutil.ReadFile(file)
